@@ -312,6 +312,13 @@ func checkCmd(opts *RunOpts, args []string) int {
 	assum := map[string]bool{}
 	var notes []string
 	nObl, nDis, nKnown, nVac := 0, 0, 0, 0
+	nFragileMiss := 0
+	nFragile := 0
+	for _, le := range led {
+		if le.Status == "proved" && fragileProof(le) {
+			nFragile++
+		}
+	}
 	seenObl := map[string]bool{}
 	witnessCache := map[string]bool{}
 	var unsatCore []string
@@ -415,6 +422,17 @@ func checkCmd(opts *RunOpts, args []string) int {
 					// a different violation of the same obligation
 				}
 				nObl++
+				// a baseline proof that only went through on a second solver / seed, or took a
+				// good part of the budget, is FRAGILE: if it now comes back without an answer
+				// (not refuted) that is not evidence of anything - harmless edits (a positive
+				// guard instead of a continue) move such proofs past the budget. Reported as
+				// UNDECIDED; a refutation (sat) of the same obligation is still a violation.
+				if inLedger && le.Status == "proved" && ob.Status != "refuted" && fragileProof(le) {
+					undecided = append(undecided, fmt.Sprintf("UNDECIDED property=%s obligation=%s status=%s (fragile baseline proof: %s, %.1fs; no answer now is not evidence; not an alarm)", prop, ob.Name, ob.Status, le.Solver, le.Seconds))
+					nObl--
+					nFragileMiss++
+					continue
+				}
 				if inLedger && (le.Status == "proved") {
 					rp := writeReplay(opts, prop, ob, run)
 					suffix := " no-failing-input-found"
@@ -721,6 +739,8 @@ func checkCmd(opts *RunOpts, args []string) int {
 		"known_finding_obligations": nKnown,
 		"vacuity_checks_passed":     nVac,
 		"undecided":                 len(undecided),
+		"fragile_baseline_proofs":   nFragile,
+		"fragile_unanswered_now":    nFragileMiss,
 		"unverified_remainder":      pm.Unverified,
 		"abstractions":              uniqNotes,
 		"samples":                   samples,
@@ -962,4 +982,14 @@ func keepStandin(name, src string) {
 	if d := os.Getenv("GOCV_KEEP_STANDIN"); d != "" {
 		os.WriteFile(filepath.Join(d, name+"_main.go"), []byte(src), 0o644)
 	}
+}
+
+// fragileProof: the baseline proof needed the second stage (another solver or a
+// random seed) or more than a second of solver time.
+func fragileProof(le LedgerEntry) bool {
+	switch le.Solver {
+	case "z3-new", "trivial", "ground-eval", "":
+		return le.Seconds > 1.0
+	}
+	return true
 }
